@@ -1,7 +1,7 @@
 SPECIFICATION Spec
 CONSTANTS
   Versions <- VersionsAll
-  FullVersions <- VersionsAll
+  FullVersions <- VersionsPairs
   Family = "raw"
   FullOffsets <- Off0
   LiteOffsets <- Off48
